@@ -225,8 +225,8 @@ pub fn run(ctx: &mut Ctx) {
     ctx.assume("socket<->peer latency 0; the peer's stimuli are built by the harness's own encoder");
     ctx.replay_corpus::<Sp<false>>();
     ctx.replay_corpus::<Sp<true>>();
-    ctx.run_generated::<Sp<false>>(ctx.tier.pick(4_000, 150_000));
-    ctx.run_generated::<Sp<true>>(ctx.tier.pick(3_000, 100_000));
+    ctx.run_generated::<Sp<false>>(ctx.tier.pick(40_000, 1_500_000));
+    ctx.run_generated::<Sp<true>>(ctx.tier.pick(30_000, 1_000_000));
 }
 
 pub fn replay(v: &Value) -> Option<i32> {
